@@ -29,7 +29,7 @@ def main():
     ap.add_argument('--runs', type=int)
     ap.add_argument('--wall', type=float)
     args = ap.parse_args()
-    if args.check in ('C37', 'C38') or os.environ.get('DSIM_NUMPY') == '1':
+    if args.check in ('C18', 'C37', 'C38') or os.environ.get('DSIM_NUMPY') == '1':
         os.environ['DSIM_NUMPY'] = '1'
         ensure_numpy()
     from dsim import batch, checks, evidence, shrink
